@@ -22,6 +22,31 @@ type serTape struct {
 	docs    []*ref.Node
 	exact   string
 	big     bool
+	// top: the tape is compared through topLevelRender only (a top-level entry that is not a
+	// root, which the reference walkers do not model)
+	top string
+	// aux: not part of the history alphabet; run through dedicated short histories
+	aux bool
+}
+
+// topLevelRender lists what Advance + MarshalJSON expose for every top-level entry.
+func topLevelRender(pj *simdjson.ParsedJson) (out string) {
+	defer func() {
+		if r := recover(); r != nil {
+			out += fmt.Sprint(" PANIC ", r)
+		}
+	}()
+	var sb strings.Builder
+	it := pj.Iter()
+	for n := 0; n < 1000; n++ {
+		t := it.Advance()
+		if t == simdjson.TypeNone {
+			break
+		}
+		b, err := it.MarshalJSON()
+		fmt.Fprintf(&sb, "%v:%s:%v|", t, b, err)
+	}
+	return sb.String()
 }
 
 func mustParse(w *W, text string, nd bool, c Cfg) (*simdjson.ParsedJson, []*ref.Node) {
@@ -132,6 +157,27 @@ func c11Tapes(w *W) []*serTape {
 	add("collide-prefix-then-long", pj, docs, false)
 	pj, docs = mustParse(w, fmt.Sprintf(`["pad",%q,%q]`, t1, s1), false, cp)
 	add("collide-prefix-long-last", pj, docs, false)
+	// the empty string as the last distinct string of the tape (offset == size of the string
+	// section), alone, after others, as a value and as a key
+	for i, txt := range []string{`[""]`, `{"a":""}`, `["x","y",""]`, `{"k":"v","":null}`, `["","x",""]`} {
+		pj, docs = mustParse(w, txt, false, cp)
+		add(fmt.Sprintf("empty-string-last-%d", i), pj, docs, false)
+		ts[len(ts)-1].aux = true
+	}
+	// a tape that ends in a NOP run: SetNull on the last root of an NDJSON tape, and on the
+	// only root of a single document
+	for i, txt := range []string{"{\"a\":1}\n[2,3]", `{"only":[1,2]}`} {
+		pj, _ = mustParse(w, txt, i == 0, cp)
+		it := pj.Iter()
+		var last simdjson.Iter
+		for it.Advance() == simdjson.TypeRoot {
+			last = it
+		}
+		if err := last.SetNull(); err != nil {
+			w.Fatal("SetNull on the last root: %v", err)
+		}
+		ts = append(ts, &serTape{name: fmt.Sprintf("last-root-nulled-%d", i), pj: pj, top: topLevelRender(pj), aux: true})
+	}
 	// a tape a caller corrupted by hand: Serialize panics on the unknown tag
 	pj, docs = mustParse(w, `[1,"two",3]`, false, cp)
 	pj.Tape[2] = uint64('X') << 56
@@ -294,6 +340,12 @@ func runSerHistory(ts []*serTape, blobs []blob, hist []serOp, collect *[]blobRec
 }
 
 func serCompare(out *simdjson.ParsedJson, t *serTape) (what, fp string) {
+	if t.top != "" {
+		if got := topLevelRender(out); got != t.top {
+			return fmt.Sprintf("top-level entries read %s, the source tape reads %s", clip(got), clip(t.top)), "different-document"
+		}
+		return "", ""
+	}
 	if err := tapeErr(out, ref.TapeOpts{AllowNop: true, StrictNop: true}); err != nil {
 		return "deserialized tape violates the format: " + err.Error(), "format"
 	}
@@ -336,7 +388,9 @@ func c11Body(w *W) {
 				continue
 			}
 			blobs = append(blobs, blob{data: append([]byte(nil), b...), tape: ti, mode: m})
-			recs = append(recs, blobRec{Blob: blobs[len(blobs)-1].data, Exact: t.exact, Name: t.name + "/" + modeNames[m]})
+			if t.top == "" {
+				recs = append(recs, blobRec{Blob: blobs[len(blobs)-1].data, Exact: t.exact, Name: t.name + "/" + modeNames[m]})
+			}
 		}
 	}
 	// alphabet
@@ -347,7 +401,7 @@ func c11Body(w *W) {
 			corruptIdx = i
 			continue // not part of the history alphabet: every panicking Serialize leaks its pooled coders
 		}
-		if !t.big {
+		if !t.big && !t.aux {
 			small = append(small, i)
 		}
 	}
@@ -362,7 +416,7 @@ func c11Body(w *W) {
 		alpha = append(alpha, serOp{Kind: 2, A: -1, Dst: dst})
 	}
 	for bi, b := range blobs {
-		if ts[b.tape].big {
+		if ts[b.tape].big || ts[b.tape].aux {
 			continue
 		}
 		for dst := 0; dst < 2; dst++ {
@@ -433,6 +487,36 @@ func c11Body(w *W) {
 						continue
 					}
 					h := []serOp{{Kind: 1, A: m}, {Kind: 0, A: a}, {Kind: 0, A: corruptIdx}, {Kind: 0, A: b}, {Kind: 2, A: -1, Dst: 1}}
+					w.res.Transitions += int64(len(h))
+					w.res.Evaluations++
+					w.res.Validated++
+					if what, fp := runSerHistory(ts, blobs, h, nil); what != "" {
+						report(h, what, fp)
+					}
+				}
+			}
+		}
+	}
+	// auxiliary small tapes (empty string last in the string section, tape ending in a NOP run):
+	// Mode(m); [Serialize(p); Deserialize(last)]; Serialize(t); Deserialize(last, dst) for every
+	// mode, every small tape p (or none) before it and every destination kind
+	w.Note("auxiliary tapes (the empty string as last distinct string x 5 shapes, last root nulled x 2): Mode(m); [Serialize(p); Deserialize]; Serialize(t); Deserialize(last, dst) for 4 modes x every small tape p or none x dst in {nil, reused, previously larger}")
+	for ti, t := range ts {
+		if !t.aux {
+			continue
+		}
+		for m := 0; m < 4; m++ {
+			for pi := -1; pi < len(small); pi++ {
+				for dst := 0; dst < 3; dst++ {
+					w.res.States++
+					if !w.Mine() || w.Expired() {
+						continue
+					}
+					h := []serOp{{Kind: 1, A: m}}
+					if pi >= 0 {
+						h = append(h, serOp{Kind: 0, A: small[pi]}, serOp{Kind: 2, A: -1, Dst: 1})
+					}
+					h = append(h, serOp{Kind: 0, A: ti}, serOp{Kind: 2, A: -1, Dst: dst})
 					w.res.Transitions += int64(len(h))
 					w.res.Evaluations++
 					w.res.Validated++
